@@ -135,4 +135,4 @@ def run(chk, replay=None):
         "4 algorithms, 4 recheck methods, then 4-9 steps of new versions / uncommitted edits / deletions / recheck and copy / move with sources {file, dir/, glob}, destinations {new file with the same or another extension, new dir/, tracked path}, "
         "--as, --force, --no-recheck, --name-only, followed half of the time by deleting and rechecking the destination; every copy / move is judged from the store event logs, the object set and the workspace bytes. "
         "non-trivial = the history contains a copy or move that selected at least one tracked source and succeeded; distinct by the whole history",
-        n_quick=200, n_thorough=1500, theorem_names=THEOREMS)
+        n_quick=120, n_thorough=1500, theorem_names=THEOREMS)
